@@ -12,3 +12,15 @@ func verifParserGet(p *parser) {
 		h(p)
 	}
 }
+
+// VerifLexHook, when set by a verification harness, is called once per
+// token request of the grammar driver (kind 0) and once per lexer state
+// transition (kind 1) with the length of the text being parsed, so that a
+// monitor can bound the work of one parse in logical steps.
+var VerifLexHook func(kind int, inputLen int)
+
+func verifLex(kind int, inputLen int) {
+	if h := VerifLexHook; h != nil {
+		h(kind, inputLen)
+	}
+}
